@@ -51,6 +51,12 @@ def cases(tier, seed):
                     yield {'grid': 'B', 'cmax': 1024, 'smax': 16384, 'ts': 1, 'size': 'F+1', 'shape': 'flat', 'source': source,
                            'recep': 'file', 'outcome': outcome, 'entity': entity, 'hist': hist, 'bound': 0, 'seg': None, 'seed': seed,
                            'pre_scu': (len(hist) + len(outcome)) % 2 == 0}
+    # "no limit" (0) announced by either side or by both
+    for cm, sm in ((0, 0), (0, 1024), (1024, 0)):
+        for source in ('dataset', 'file'):
+            for recep in ('file', 'memory'):
+                yield {'grid': 'A', 'cmax': cm, 'smax': sm, 'ts': (cm + sm) // 1024, 'size': '3F+1', 'shape': 'flat', 'source': source,
+                       'recep': recep, 'outcome': 'ok', 'entity': 'ae', 'hist': 'A', 'bound': 0, 'seg': None, 'seed': seed}
     # long file sources whose length is an exact multiple of many fragments (block-wise readers)
     for size in ('16F', '32F'):
         for source in ('file', 'dataset'):
@@ -95,7 +101,7 @@ def cases(tier, seed):
 def _dataset(case, inst, variant):
     """Build a data set whose encoding in the negotiated TS has exactly the wanted size relative to F."""
     ts = TS[case['ts']]
-    limit = min(case['cmax'], case['smax'])
+    limit = min([x for x in (case['cmax'], case['smax']) if x] or [1024])
     F = limit - 6
     want = {'F-1': F - 1, 'F': F, 'F+1': F + 1, '2F': 2 * F, '3F+1': 3 * F + 1, '16F': 16 * F, '32F': 32 * F}[case['size']]
     shape = {'flat': 'a', 'seq': 'seq', 'odd': 'b'}[case['shape']]
